@@ -347,6 +347,13 @@ func genOptCase(r *rng) optCase {
 		return optCase{cfgA: []string{"sizer.names=" + v}, argsA: out, argsB: append([]string{"--names=" + v}, out...), expect: "equal"}
 	case 7:
 		v := []string{"1", "2"}[r.n(2)]
+		if r.coin(1, 2) {
+			// without --json the JSON version is not used at all, in either spelling, whatever its value
+			// (seeded change C14z validated the option's value even then, but not the gitconfig's)
+			v = []string{"1", "2", "3", "0", "7", "-1"}[r.n(6)]
+			tbl := [][]string{{}, {"--verbose"}, {"--names=hash"}}[r.n(3)]
+			return optCase{cfgA: []string{"sizer.jsonVersion=" + v}, argsA: tbl, argsB: append([]string{"--json-version=" + v}, tbl...), expect: "equal"}
+		}
 		return optCase{cfgA: []string{"sizer.jsonVersion=" + v}, argsA: []string{"--json"}, argsB: []string{"--json", "--json-version=" + v}, expect: "equal"}
 	case 8: // the command line overrides gitconfig, valid or invalid
 		cv := []string{"0", "30", "abc", "", "NaN"}[r.n(5)]
